@@ -413,6 +413,58 @@ func genFilterCase(r *prng.R, id string, allOrders bool, benignBias bool, withEn
 	return proto.Case{ID: id, Ops: ops}
 }
 
+// ---- L2q cases: quotas loaded through the real loader --------------------------------------------
+
+var qmShapes = []string{"-", "GET", "POST", "GET,POST", "POST,GET", "HEAD", "GET,HEAD"}
+
+// several quotas per URL whose filters differ by method set / headers / query / status / nothing
+func genQuotaCase(r *prng.R, id string) proto.Case {
+	n := r.Range(2, 5)
+	var urls []string
+	base := genPattern(r)
+	urls = append(urls, base)
+	if r.Chance(50) {
+		// an overlapping second URL on the SAME host (the quota loader's own validation refuses patterns that
+		// cross the host/path boundary of another quota's pattern: loader glue, not the filter tree)
+		if d := derivePattern(r, base); strings.Split(d, "/")[0] == strings.Split(base, "/")[0] {
+			urls = append(urls, d)
+		}
+	}
+	var ops []string
+	var shapes []shape
+	for i := 0; i < n; i++ {
+		u := urls[0]
+		if r.Chance(30) {
+			u = prng.Pick(r, urls)
+		}
+		s := shape{prng.Pick(r, qmShapes), "-", "-", "-"}
+		switch r.Intn(6) {
+		case 0:
+			s.h = prng.Pick(r, hShapes)
+		case 1:
+			s.q = prng.Pick(r, []string{"k:v", "k:v,j:w", "j:w,k:v", "k:%e"})
+		case 2:
+			s.s = prng.Pick(r, sShapes)
+		case 3: // exactly the filter of an earlier quota (same key: folded into one system flow)
+			if len(shapes) > 0 {
+				s = prng.Pick(r, shapes)
+			}
+		}
+		shapes = append(shapes, s)
+		ops = append(ops, fmt.Sprintf("quota q%d %s m=%s h=%s q=%s s=%s", i, proto.Enc(u), s.m, s.h, s.q, s.s))
+	}
+	ops = append(ops, "qload")
+	for k := r.Range(4, 9); k > 0; k-- {
+		u := deriveURL(r, urls)
+		if r.Chance(25) {
+			ops = append(ops, "q"+genRes(r, u))
+		} else {
+			ops = append(ops, "q"+genReq(r, u, shapes))
+		}
+	}
+	return proto.Case{ID: id, Ops: ops}
+}
+
 // ---- L1 cases ---------------------------------------------------------------------------------
 
 func genTrieCase(r *prng.R, id string) proto.Case {
@@ -553,6 +605,8 @@ func gen(r *prng.R, f proto.Flags, emit func(proto.Case)) {
 		switch {
 		case k%4 == 0:
 			emit(genTrieCase(rr, fmt.Sprintf("t%d", k)))
+		case k%8 == 3:
+			emit(genQuotaCase(rr, fmt.Sprintf("q%d", k)))
 		default:
 			emit(genFilterCase(rr, fmt.Sprintf("p%d", k), rr.Chance(40), k%4 == 1, k%16 == 2 || k%16 == 5))
 		}
